@@ -176,3 +176,9 @@ def params_runner(sizes):
                 'assumptions': ['parameter table spec/params_table.json transcribed from the pinned tree', 'INFTY and VERBOSITY are not varied']}
     return run
 PLANS['C15'] = {'level': 'model_checking', 'tv_spec': 'TV_Params', 'run': params_runner({'quick': (12, 60, 12), 'thorough': (120, 80, 16)})}
+
+PLANS['C14'] = {
+    'level': 'model_checking', 'tv_spec': 'TV_API',
+    'run': api_runner({'quick': [('basfile', 16, 8, 12)], 'thorough': [('basfile', 200, 10, 16)]},
+                      mcs=[dict(name='BasisFile', cfg='MC_BasisFile.cfg', tla='MC_BasisFile.tla', timeout=900)]),
+}
